@@ -283,10 +283,10 @@ def wrap_mixed(ctx, name, ref):
 # ---------------------------------------------------------------------------
 # T-ITER: step function of the array / map iterators (item level)
 
-ITERS = [("<minicbor::decode::decoder::ArrayIter<'a, 'b, T> as std::iter::Iterator>::next", 1),
-         ("<minicbor::decode::decoder::ArrayIterWithCtx<'a, 'b, C, T> as std::iter::Iterator>::next", 1),
-         ("<minicbor::decode::decoder::MapIter<'a, 'b, K, V> as std::iter::Iterator>::next", 2),
-         ("<minicbor::decode::decoder::MapIterWithCtx<'a, 'b, C, K, V> as std::iter::Iterator>::next", 2)]
+ITERS = [("<minicbor::decode::decoder::ArrayIter<'_, '_, T> as std::iter::Iterator>::next", 1),
+         ("<minicbor::decode::decoder::ArrayIterWithCtx<'_, '_, C, T> as std::iter::Iterator>::next", 1),
+         ("<minicbor::decode::decoder::MapIter<'_, '_, K, V> as std::iter::Iterator>::next", 2),
+         ("<minicbor::decode::decoder::MapIterWithCtx<'_, '_, C, K, V> as std::iter::Iterator>::next", 2)]
 
 
 def t_iter(ctx, prog):
@@ -502,8 +502,8 @@ def run(ctx):
 # ---------------------------------------------------------------------------
 # T-CHUNK: step function of the string chunk iterators (byte level)
 
-CHUNK_ITERS = [("<minicbor::decode::decoder::BytesIter<'a, 'b> as std::iter::Iterator>::next", 'BytesIter', 2),
-               ("<minicbor::decode::decoder::StrIter<'a, 'b> as std::iter::Iterator>::next", 'StrIter', 3)]
+CHUNK_ITERS = [("<minicbor::decode::decoder::BytesIter<'_, '_> as std::iter::Iterator>::next", 'BytesIter', 2),
+               ("<minicbor::decode::decoder::StrIter<'_, '_> as std::iter::Iterator>::next", 'StrIter', 3)]
 
 
 def t_chunk(ctx, prog):
